@@ -342,6 +342,9 @@ where
                         let mut local = PartStats::default();
                         let local_cell = std::cell::RefCell::new(&mut local);
                         let shrinking: std::cell::RefCell<Option<String>> = std::cell::RefCell::new(None);
+                        // the case that failed first and what it said (kept if shrinking ends on a
+                        // candidate that does not fail again: timing-dependent failures)
+                        let original: std::cell::RefCell<Option<(T, Fail)>> = std::cell::RefCell::new(None);
                         let res = runner.run(&strat, |v| {
                             if let Some(orig_sig) = shrinking.borrow().as_ref() {
                                 // shrinking: a candidate fails only with the original signature
@@ -378,6 +381,7 @@ where
                                 Ok(()) => Ok(()),
                                 Err(f) => {
                                     *shrinking.borrow_mut() = Some(f.sig.clone());
+                                    *original.borrow_mut() = Some((v.clone(), Fail::new(f.sig.clone(), f.msg.clone())));
                                     abort.store(true, Ordering::Relaxed);
                                     Err(TestCaseError::fail(f.sig))
                                 },
@@ -386,15 +390,18 @@ where
                         if let Err(TestError::Fail(_, minimal)) = res {
                             // final evaluation of the shrunk case for the message
                             let (r, _) = self.eval(&minimal, findings, false);
-                            let f = r.err().unwrap_or_else(|| {
-                                Fail::new(
-                                    shrinking.borrow().clone().unwrap_or_default(),
-                                    "shrunk case no longer fails (flaky); original failure signature kept",
-                                )
-                            });
+                            let (case, f) = match (r.err(), original.borrow_mut().take()) {
+                                (Some(f), _) => (minimal, f),
+                                // the shrunk case does not fail again: report the case that did, with what it said
+                                (None, Some((v0, f0))) => (v0, Fail::new(f0.sig, format!("{} [not reproduced when re-run while shrinking: timing-dependent]", f0.msg))),
+                                (None, None) => (
+                                    minimal,
+                                    Fail::new(shrinking.borrow().clone().unwrap_or_default(), "shrunk case no longer fails (flaky); original failure signature kept"),
+                                ),
+                            };
                             let mut fv = first_violation.lock().unwrap();
                             if fv.is_none() {
-                                *fv = Some((minimal, f));
+                                *fv = Some((case, f));
                             }
                         } else if let Err(TestError::Abort(r)) = res {
                             eprintln!("nv: part {} shard {j}: generator aborted: {r}", self.name);
